@@ -1102,11 +1102,16 @@ impl Persistable for Bytes {
     }
 }
 
-pub(crate) fn to_bytes<T>(table: &T) -> Option<Vec<u8>>
+pub(crate) fn to_bytes<T>(table: &T) -> Result<Option<Vec<u8>>, Error>
 where
     T: FontWrite + Validate,
 {
-    write_fonts::dump_table(table).ok()
+    write_fonts::dump_table(table)
+        .map(Some)
+        .map_err(|e| Error::DumpTableError {
+            e,
+            context: std::any::type_name::<T>().into(),
+        })
 }
 
 #[cfg(test)]
